@@ -222,6 +222,26 @@ def rule_R3_token_replace(text: str, frm: str, to: str, rule: str, counts: dict)
     return text
 
 
+def rule_R7_format(text: str, counts: dict) -> str:
+    """R7: `format!(..)` -> `vshim_format()` (an external_body fn returning an unspecified String):
+    message text never influences control flow in the functions under contract."""
+    toks = rustlex.lex(text)
+    out = []
+    k = 0
+    while k < len(toks):
+        t = toks[k]
+        if t.kind == "ident" and t.text == "format" and k + 2 < len(toks) and toks[k + 1].text == "!" and toks[k + 2].text == "(":
+            c = rustlex.match_close(toks, k + 2)
+            dropped = text[t.start:toks[c].end]
+            out.append("vshim_format()" + "\n" * dropped.count("\n"))
+            counts["R7"] = counts.get("R7", 0) + 1
+            k = c + 1
+            continue
+        out.append(t.text)
+        k += 1
+    return "".join(out)
+
+
 def keep_attr(a: str) -> bool:
     return False
 
@@ -456,6 +476,8 @@ class UnitBuilder:
         text = raw
         text = rule_R1_drop_tracing(text, self.counts)
         text = rule_R2_ref_patterns(text, self.counts)
+        if it.kind == "fn":
+            text = rule_R7_format(text, self.counts)
         for rule, frm, to in self.spec.rewrites:
             text = rule_R3_token_replace(text, frm, to, rule, self.counts)
         # R4 on the full item text (attributes before decl were already excluded by using it.decl)
@@ -476,6 +498,12 @@ class UnitBuilder:
             shape = rustlex.fn_shape(text)
             sig_text = text[:shape.sig_end]
             body = text[shape.sig_end:shape.body_close + 1]
+            if "drop_body" in ispec.opts:
+                # R9: only for external_body items (contract assumed, never verified): the body references
+                # crates the standalone file cannot see, so it is replaced; line count preserved
+                assert "external_body" in ispec.opts
+                body = "{ unimplemented!() }" + "\n" * body.count("\n")
+                self.counts["R9"] = self.counts.get("R9", 0) + 1
             ret = "r"
             for o in ispec.opts:
                 if o.startswith("ret "):
@@ -485,6 +513,9 @@ class UnitBuilder:
             has_req = bool(S.get("requires"))
             if "external_body" in ispec.opts:
                 self.emit_gen("#[verifier::external_body]", item_id)
+            for o in ispec.opts:
+                if o.startswith("attr "):
+                    self.emit_gen(f"#[{o[5:].strip()}]", item_id)
             self.emit_repo(sig_text.rstrip(), ispec.file, first_line, item_id)
             if S.get("requires"):
                 self.emit_gen("    requires", item_id)
